@@ -112,4 +112,55 @@ def etaShrinkage (etas : List Rat) (omega : Rat) : Rat := 1 - var etas / omega
 /-- `calculate_individual_shrinkage`: `var_i(eta) / omega`. -/
 def indShrinkage (diag : Rat) (omega : Rat) : Rat := diag / omega
 
+/-! ### labelled data: delta-method standard error (`internals/math.py se_delta_method`) -/
+
+def lookupS {α : Type} : List (String × α) → String → Option α
+  | [], _ => none
+  | (k, v) :: xs, a => if k = a then some v else lookupS xs a
+
+/-- A labelled covariance matrix (pandas DataFrame): column labels in column
+    order, and the rows in index order, each cell carrying its column label. -/
+structure LCov where
+  cols : List String
+  rows : List (String × List (String × Rat))
+  deriving Repr, Inhabited
+
+/-- `cov.loc[a, b]` (0 for a missing label; the driver refuses such requests). -/
+def LCov.entry (c : LCov) (a b : String) : Rat :=
+  match lookupS c.rows a with
+  | some r => (lookupS r b).getD 0
+  | none => 0
+
+/-- `names = [y for x in cov.columns for y in names_unsorted if y == x]`:
+    the expression's symbols in the order of the covariance columns. -/
+def deltaNames (syms cols : List String) : List String :=
+  cols.flatMap (fun x => syms.filter (fun y => y == x))
+
+/-- `g @ C @ g.T` with gradient and matrix both indexed through `names`. -/
+def quadForm (names : List String) (g : String → Rat) (C : String → String → Rat) : Rat :=
+  sum (names.map (fun a => sum (names.map (fun b => g a * C a b * g b))))
+
+/-- Squared delta-method standard error: `cov = cov[names].loc[names]`, gradient
+    per name, quadratic form.  `g` = numeric gradient of the expression per symbol. -/
+def deltaVar (syms : List String) (g : String → Rat) (c : LCov) : Rat :=
+  quadForm (deltaNames syms c.cols) g c.entry
+
+/-! ### labelled data: Cook scores as the code computes them -/
+
+def insertStr (x : String) : List String → List String
+  | [] => [x]
+  | y :: ys => if x ≤ y then x :: y :: ys else y :: insertStr x ys
+
+def sortStr (xs : List String) : List String := xs.foldr insertStr []
+
+/-- `cdd_estimates - base_estimate` aligns on labels; when the two label orders
+    differ pandas returns the columns in sorted order.  The deltas are then used
+    *positionally* against `covariance_matrix.values`. -/
+def cook2Labelled (colLabels : List String) (cols : List (List Rat)) (baseLabels : List String) (base : List Rat)
+    (m : List (List Rat)) : List (Option Rat) :=
+  let order := if baseLabels == colLabels then colLabels else sortStr colLabels
+  let colOf := fun l => (lookupS (colLabels.zip cols) l).getD []
+  let baseOf := fun l => (lookupS (baseLabels.zip base) l).getD 0
+  cook2 (order.map baseOf) (order.map colOf) m
+
 end Pharmpy.C19.Stats
